@@ -88,9 +88,9 @@ def replay_sim(rec, behaviours, analyses=None, mid=None, rng=None):
             n += 1
             if mid and rng.random() < 0.3:
                 mid(s)
-        n += alias_mux_call(s)
         if analyses:
             analyses(s)
+        n += alias_mux_call(s)      # (after the analyses: the reports of the history-built system are those of a system inside the model)
     return n
 
 
